@@ -542,11 +542,18 @@ static Setup setup(void* lib, const Json& c) {
   su.law = readLaw(c["law"]);
   const auto& h = su.b.h;
   // material properties are given by (external) name and placed in the order the library declares
+  size_t given = 0;
   for (const auto& n : su.b.mps) {
-    if (!has(c["mp"], n.c_str())) throw std::runtime_error(su.b.name + ": no value for the material property '" + n + "'");
-    su.mp.push_back(ratd(c["mp"][n]));
+    if (has(c["mp"], n.c_str())) {
+      su.mp.push_back(ratd(c["mp"][n]));
+      ++given;
+    } else if (has(c, "mpdefault")) {
+      su.mp.push_back(ratd(c["mpdefault"]));   // e.g. the AngularCoordinate declared by the DDIF2 stress potential
+    } else {
+      throw std::runtime_error(su.b.name + ": no value for the material property '" + n + "'");
+    }
   }
-  if (c["mp"].o.size() != su.b.mps.size()) throw std::runtime_error(su.b.name + ": material properties given do not match the ones declared");
+  if (c["mp"].o.size() != given) throw std::runtime_error(su.b.name + ": material properties given do not match the ones declared");
   su.mp.resize(std::max<size_t>(su.mp.size(), 1), 0.);
   if (has(c, "par"))
     for (const auto& kv : c["par"].o) {
@@ -892,6 +899,7 @@ static void tangentCase(void* lib, const Json& c, Json& r) {
 struct BlockStat {
   ld worst = 0;
   long long reports = 0;
+  long long bad = 0;   // iterations whose mismatch is above the class given by the case
   ld scale = 0;
   std::string sampleA, sampleN;
 };
@@ -916,6 +924,7 @@ static std::vector<double> numbersOf(const std::string& t) {
   return v;
 }
 struct Report {
+  long long iter = -1;  // Newton iteration the report belongs to (-1: no marker seen)
   std::string name;
   std::vector<double> a, n;
   std::string ta, tn;
@@ -952,10 +961,13 @@ static std::vector<std::vector<Report>> parseReports(const std::string& out, lon
   };
   auto marker = [](const std::string& l) { return l.find("::integrate() : ") != std::string::npos; };
   std::vector<std::vector<Report>> groups(1);
+  long long iter = -1;
   size_t i = 0;
   while (i < lines.size()) {
     if (marker(lines[i])) {
       if (!groups.back().empty()) groups.emplace_back();
+      const auto q = lines[i].find(": iteration ");
+      iter = q == std::string::npos ? -1 : atoll(lines[i].c_str() + q + 12);
       ++i;
       continue;
     }
@@ -973,6 +985,7 @@ static std::vector<std::vector<Report>> parseReports(const std::string& out, lon
     };
     size_t k = i + 1;
     Report rp;
+    rp.iter = iter;
     rp.name = name;
     rp.ta = body(k);
     std::string n2;
@@ -1016,12 +1029,21 @@ static bool statusChange(const std::vector<Report>& g) {
   }
   return false;
 }
-static void accumulate(const std::vector<std::vector<Report>>& groups, std::map<std::string, BlockStat>& stats, long long& flips) {
+static void accumulate(const std::vector<std::vector<Report>>& groups, std::map<std::string, BlockStat>& stats, long long& flips, long long& firsts,
+                       long long& judged, const long long tolclass) {
   for (const auto& g : groups) {
+    if (g.empty()) continue;
+    // the initial iterate (all increments zero) sits exactly on the switching points of max(dp, 0), of the Macaulay
+    // brackets and of the status tests: the residual is only one-sided differentiable there
+    if (g.front().iter <= 0) {
+      ++firsts;
+      continue;
+    }
     if (statusChange(g)) {
       ++flips;
       continue;
     }
+    ++judged;
     for (const auto& rp : g) {
       ld d = 0, sc = 1;
       bool bad = false;
@@ -1033,6 +1055,7 @@ static void accumulate(const std::vector<std::vector<Report>>& groups, std::map<
       auto& st = stats[rp.name];
       ++st.reports;
       const ld m = bad ? 1e30L : d / sc;
+      if (e10(m) > tolclass) ++st.bad;
       if (m >= st.worst) {
         st.worst = m;
         st.scale = sc;
@@ -1049,9 +1072,11 @@ static void jacobianCase(void* lib, const Json& c, Json& r) {
   std::cout.precision(17);
   // one run of the whole path per perturbation of the numerical jacobian; per block the best run counts
   std::map<std::string, long long> best;
-  std::map<std::string, long long> nrep;
+  std::map<std::string, long long> nrep, nbad;
+  const long long tolclass = c["blockclass"].asInt();
+  long long judged = 0;
   std::map<std::string, std::pair<std::string, std::string>> sample;
-  long long steps_ok = 0, steps = 0, unparsed = 0, flips = 0;
+  long long steps_ok = 0, steps = 0, unparsed = 0, flips = 0, firsts = 0, judged_steps = 0;
   bool active = false;
   Json perrun = Json::array();
   for (const auto& pe : c["njeps"].a) {
@@ -1065,8 +1090,11 @@ static void jacobianCase(void* lib, const Json& c, Json& r) {
       const double dt = ratd(st["dt"]);
       const auto q = call(su.b, su.mp, eto, de, sig, isv, su.esv0, su.esv1, dt, 0., true);
       ++tot;
-      accumulate(parseReports(q.out, unparsed), stats, flips);
-      if (q.ret < 0 || q.threw) break;  // the path stops at the first failure
+      if (getenv("VP_DUMP")) std::cerr << "==== case " << c["id"].asInt() << " step " << tot << " ret " << q.ret << "\n" << q.out << "\n";
+      // the iterates of a step that fails (divergence, overflow) are not judged; the path stops at the first failure
+      if (q.ret < 0 || q.threw) break;
+      accumulate(parseReports(q.out, unparsed), stats, flips, firsts, judged, tolclass);
+      ++judged_steps;
       ++ok;
       for (int i = 0; i < h.ns; ++i) eto[i] += de[i];
       const State sa = viewState(su, isv), sb = viewState(su, q.isv);
@@ -1085,10 +1113,15 @@ static void jacobianCase(void* lib, const Json& c, Json& r) {
         sample[kv.first] = {kv.second.sampleA, kv.second.sampleN};
       }
       nrep[kv.first] = std::max(nrep[kv.first], kv.second.reports);
+      // the number of inexact iterations of a block: the smallest one over the perturbations
+      nbad[kv.first] = nbad.count(kv.first) ? std::min(nbad[kv.first], kv.second.bad) : kv.second.bad;
     }
     // a block never reported in a run agrees exactly in that run
     for (auto& kv : best)
-      if (!stats.count(kv.first)) kv.second = -99;
+      if (!stats.count(kv.first)) {
+        kv.second = -99;
+        nbad[kv.first] = 0;
+      }
     perrun.push(pr);
   }
   Json blocks = Json::array();
@@ -1098,11 +1131,11 @@ static void jacobianCase(void* lib, const Json& c, Json& r) {
     auto norm = normVar;
     const auto sep = kv.first.find("_dd");
     const std::string X = norm(kv.first.substr(2, sep - 2)), Y = norm(kv.first.substr(sep + 3));
-    b.set("blk", Json(kv.first)).set("eq", Json(X)).set("var", Json(Y)).set("cls", Json(kv.second)).set("reports", Json(nrep[kv.first]));
+    b.set("blk", Json(kv.first)).set("eq", Json(X)).set("var", Json(Y)).set("cls", Json(kv.second)).set("reports", Json(nrep[kv.first])).set("bad", Json(nbad[kv.first]));
     if (kv.second > -4) b.set("analytical", Json(sample[kv.first].first)).set("numerical", Json(sample[kv.first].second));
     blocks.push(b);
   }
-  r.set("blocks", blocks).set("per_run", perrun).set("steps", Json(steps)).set("steps_ok", Json(steps_ok)).set("active", Json(active)).set("unparsed", Json(unparsed)).set("status_changes", Json(flips));
+  r.set("blocks", blocks).set("per_run", perrun).set("steps", Json(steps)).set("steps_ok", Json(steps_ok)).set("active", Json(active)).set("unparsed", Json(unparsed)).set("status_changes", Json(flips)).set("initial_iterates", Json(firsts)).set("judged_iterations", Json(judged));
 }
 
 int main(int argc, char** argv) {
